@@ -331,6 +331,50 @@ def group_part(ck, model_ok, tier, replay):
         gateway_io.create_io, gateway_bootstrap.bootstrap = orig
 
 
+def lookup_under_churn(ck, tier):
+    """membership of a gateway that is live all the time, looked up while another thread removes and re-adds a DIFFERENT member
+    (what exit() / makegateway of other gateways do): it must never be missed -- allocate_id and _register rely on this lookup"""
+    import threading
+    import time
+
+    import execnet.multi as multi
+
+    class _Spec:
+        via = None
+
+    class _G:
+        def __init__(self, id):
+            self.id, self.spec = id, _Spec()
+
+    group = multi.Group()
+    atexit_unregister(group)
+    first, keep = _G("a"), _G("keep")
+    group._gateways += [first, keep]
+    stop, miss, n = [False], [0], [0]
+
+    def churn():
+        gws = group._gateways
+        while not stop[0]:
+            gws.remove(first)          # what _unregister does to the member list
+            gws.insert(0, first)
+
+    def look():
+        while not stop[0]:
+            n[0] += 1
+            if "keep" not in group or group["keep"] is not keep:
+                miss[0] += 1
+
+    ths = [threading.Thread(target=churn, daemon=True), threading.Thread(target=look, daemon=True)]
+    [t.start() for t in ths]
+    time.sleep(2.5 if tier == "quick" else 15)
+    stop[0] = True
+    [t.join(10) for t in ths]
+    ck.case(("lookup-under-churn",), nontrivial=True)
+    ck.cov["lookups_under_churn"] = n[0]
+    if miss[0]:
+        ck.fail("group-lookup-misses-a-live-gateway-during-unregister-of-another", {"lookups": n[0], "misses": miss[0]})
+
+
 def atexit_unregister(group):
     import atexit
 
@@ -352,6 +396,8 @@ def main(tier, seed, replay=None):
     ok = ck.prepare()
     xspec_part(ck, ok, tier, replay)
     group_part(ck, ok, tier, replay)
+    if not replay:
+        lookup_under_churn(ck, tier)
     try:
         from props import c20_sched  # concurrent part (needs the scheduler)
 
